@@ -284,7 +284,12 @@ func cleanupLogic(c *Ctx) {
 	// upper bound: s <= len(buffer)
 	// (the value may come out of a helper that is analysed as part of this function)
 	low, lowFn := sl.Low, q.fn
+	var lowRets []*ssa.Return // several returns of a helper: each one is judged like an incoming edge
 	for {
+		if rv, okr := P.ReachingStore(low); okr {
+			low = rv
+			continue
+		}
 		if prm, isPrm := low.(*ssa.Parameter); isPrm && an.IsTransparent(prm.Parent()) {
 			// a parameter of a helper analysed as part of this function: the argument at its only call site
 			site := an.TransparentSite(prm.Parent())
@@ -312,6 +317,18 @@ func cleanupLogic(c *Ctx) {
 			if r, ok := b.Instrs[len(b.Instrs)-1].(*ssa.Return); ok {
 				rets = append(rets, r)
 			}
+		}
+		if len(rets) > 1 {
+			ok1 := true
+			for _, r := range rets {
+				if len(r.Results) != 1 {
+					ok1 = false
+				}
+			}
+			if ok1 {
+				lowRets, lowFn = rets, k
+			}
+			break
 		}
 		if len(rets) != 1 || len(rets[0].Results) != 1 {
 			break
@@ -345,7 +362,13 @@ func cleanupLogic(c *Ctx) {
 		return okI
 	}
 	clamped := true
-	if ph, ok := low.(*ssa.Phi); ok {
+	if len(lowRets) > 0 {
+		for _, r := range lowRets {
+			if !upper(r.Results[0], nil, nil, r) {
+				clamped = false
+			}
+		}
+	} else if ph, ok := low.(*ssa.Phi); ok {
 		for i, e := range ph.Edges {
 			pred := ph.Block().Preds[i]
 			if !upper(e, pred, ph.Block(), nil) {
